@@ -257,14 +257,14 @@ func (r *reader) ReadUint8(p *uint8) error {
 func (r *reader) Float32() (float32, error) {
 	v, err := r.Uint32()
 	if err != nil {
-		return 0, nil
+		return 0, err
 	}
 	return float32FromInt(v), nil
 }
 func (r *reader) Float64() (float64, error) {
 	v, err := r.Uint64()
 	if err != nil {
-		return 0, nil
+		return 0, err
 	}
 	return float64FromInt(v), nil
 }
